@@ -46,10 +46,11 @@ def child_main(argv):
     scenario, _, flavour = scenario.partition(':')
     prefix = os.path.join(workdir, 'arch[1]' if flavour == 'bracket' else 'arch')
     result_path = os.path.join(workdir, 'result.json')
-    if scenario == 'restart':
-        # a new run on the same prefix: must refuse while a journal exists
+    if scenario in ('restart', 'restart-fresh'):
+        # a new run on the same prefix: must refuse while a journal exists ('restart-fresh': the same command again without
+        # --warc-append, which would otherwise start the archive over)
         try:
-            WARCRecorder(prefix, params=WARCRecorderParams(compress=compress, log=False, appending=True,
+            WARCRecorder(prefix, params=WARCRecorderParams(compress=compress, log=False, appending=(scenario == 'restart'),
                                                            temp_dir=workdir))
             out = {'raised': None}
         except OSError as e:
@@ -59,8 +60,8 @@ def child_main(argv):
         return
     params = WARCRecorderParams(compress=compress, log=False, temp_dir=workdir,
                                 max_size=(200 if scenario == 'rollover' else None),
-                                cdx=(scenario == 'cdx'))
-    if scenario == 'fresh':
+                                cdx=(scenario == 'cdx'), appending=(scenario == 'fresh-appending'))
+    if scenario in ('fresh', 'fresh-appending'):
         # the monitored append is the very first record of a new archive (the warcinfo record written by the constructor):
         # the pre-append length is 0
         with open(os.path.join(workdir, 'snap.bin'), 'wb') as f:
@@ -194,8 +195,8 @@ def child_main(argv):
 
 # ------------------------------------------------------------------------------------------ parent
 def run_child(workdir, cfg, at, mode, errno_, log=None, scenario=None, at2=None, then_append=False):
-    if scenario == 'restart' and ':' in cfg.get('scenario', ''):
-        scenario = 'restart:' + cfg['scenario'].split(':', 1)[1]
+    if scenario in ('restart', 'restart-fresh') and ':' in cfg.get('scenario', ''):
+        scenario = scenario + ':' + cfg['scenario'].split(':', 1)[1]
     env = par.child_env({
         'LD_PRELOAD': FI_SO, 'FI_PATH': os.path.join(workdir, 'arch'), 'FI_AT': str(at), 'FI_MODE': mode,
         'FI_ERRNO': str(errno_ or 28), 'FI_ARMED': '0'})
@@ -381,17 +382,29 @@ def case_worker(job):
                     part.violation('kill-leaves-invalid-archive-without-usable-journal/{}/{}'.format(mode, opclass),
                                    dict(detail, verdict=str(verdict)), replay)
             if journals:
-                # a new run must refuse to start
-                run_child(workdir, cfg, 0, 'err', 0, scenario='restart')
-                try:
-                    with open(os.path.join(workdir, 'result.json')) as f:
-                        r2 = json.load(f)
-                except (OSError, ValueError):
-                    r2 = None
-                if not r2 or r2.get('raised') is None:
-                    part.violation('restart-accepted-leftover-journal', dict(detail, restart=r2), replay)
-                else:
-                    part.count('restart_refused_with_journal')
+                # a new run must refuse to start - with --warc-append and without - and must leave archive and journal as they are
+                for restart in ('restart', 'restart-fresh'):
+                    run_child(workdir, cfg, 0, 'err', 0, scenario=restart)
+                    try:
+                        with open(os.path.join(workdir, 'result.json')) as f:
+                            r2 = json.load(f)
+                    except (OSError, ValueError):
+                        r2 = None
+                    try:
+                        with open(warc_path, 'rb') as f:
+                            after_restart = f.read()
+                    except OSError:
+                        after_restart = b'' if archive == b'' else None      # (an archive that was never created)
+                    if not r2 or r2.get('raised') is None:
+                        part.violation('restart-accepted-leftover-journal' + ('/without-append' if restart == 'restart-fresh' else ''),
+                                       dict(detail, restart=r2), replay)
+                        break
+                    elif after_restart != archive or sorted(glob.glob(os.path.join(workdir, 'arch*-wpullinc'))) != journals:
+                        part.violation('refused-restart-changed-the-archive-or-its-journal/' + restart,
+                                       dict(detail, archive_len_after_restart=None if after_restart is None else len(after_restart)), replay)
+                        break
+                    else:
+                        part.count('restart_refused_with_journal')
     finally:
         shutil.rmtree(workdir, ignore_errors=True)
     return part.dump()
@@ -535,6 +548,7 @@ def main():
     # the first record of a fresh archive (pre-append length 0)
     for compress in (False, True):
         cfgs.append({'compress': compress, 'earlier': 0, 'size': 0, 'scenario': 'fresh'})
+        cfgs.append({'compress': compress, 'earlier': 0, 'size': 0, 'scenario': 'fresh-appending'})
     # a new run that appends to the archive of an earlier one
     for compress in (False, True):
         cfgs.append({'compress': compress, 'earlier': 2, 'size': 0, 'scenario': 'appending'})
